@@ -90,6 +90,15 @@ while True:
     db.Setting = x
     yield_()
 """, [NI])
+C["C04-inlined-return-register"] = ("C01", H + """def g():
+    return d1.On * 3
+def f():
+    t = d2.On + 1
+    return g() + t
+while True:
+    db.Setting = d0.On + f()
+    yield_()
+""", [D])
 C["C06-forlist-call"] = ("C06", H + """def f(p):
     db.Setting = p + d0.Setting
 while True:
